@@ -172,7 +172,7 @@ def run_job(job, workdir, want_trace=True):
             return r
     else:
         b = a
-    base = ['cbmc', b, '--bounds-check', '--pointer-check', '--div-by-zero-check', '--object-bits', '12', '--json-ui'] + job.cbmc_flags
+    base = ['cbmc', b, '--bounds-check', '--pointer-check', '--div-by-zero-check', '--object-bits', '12', '--json-ui'] + (job.cbmc_flags if '--sat-solver' in job.cbmc_flags else ['--sat-solver', 'cadical'] + job.cbmc_flags)
     if job.unwind is not None:
         base += ['--unwind', str(job.unwind), '--unwinding-assertions']
     r.cmds.append(' '.join(base))
